@@ -240,6 +240,12 @@ func (w *World) verifyItem(it *Item, timeoutMs int) *FuncResult {
 	e.prop = it.Property
 	e.usedContracts = map[string]bool{}
 	e.usedLemmas = map[string]bool{}
+	e.opaque = map[string]bool{}
+	for _, n := range strings.Split(it.Opts["opaque"], ",") {
+		if n = strings.TrimSpace(n); n != "" {
+			e.opaque[n] = true
+		}
+	}
 	switch it.Mode {
 	case "bytebv":
 		e.byteBV = true
@@ -262,6 +268,8 @@ func (w *World) verifyItem(it *Item, timeoutMs int) *FuncResult {
 		}()
 		if it.Kind == "lemma" {
 			e.verifyLemma(it)
+		} else if it.Kind == "pure" {
+			e.verifyPureWF(it)
 		} else {
 			e.verifyFunc(it)
 		}
@@ -561,6 +569,15 @@ func (e *Env) verifyLemma(it *Item) {
 		vars[p.Name] = e.freshValue(t, "l_"+p.Name)
 	}
 	ctx := &SpecCtx{e: e, st: st, vars: vars, pkg: pkg}
+	if it.Opts["twostate"] != "" {
+		// old() refers to a second, arbitrary heap
+		old := st
+		cur := &State{pc: tTrue, heap: map[string]string{}, base: "1"}
+		nx := e.fresh("next1", sInt)
+		e.assume(sx("<=", next0, nx))
+		cur.next = nx
+		ctx = &SpecCtx{e: e, st: cur, old: old, vars: vars, pkg: pkg}
+	}
 	for _, c := range it.Clauses {
 		if c.Kind == "requires" {
 			e.assume(ctx.boolTerm(c.Expr))
@@ -601,17 +618,68 @@ func (e *Env) lemmaSteps(it *Item, ctx *SpecCtx, steps []*LemmaStep, pc string) 
 				for i, p := range it.Params {
 					vars[p.Name] = ctx.coerce(ctx.eval(s.Args[i]), e.w.resolveType(lpkg, p.TypeStr))
 				}
-				inner := &SpecCtx{e: e, st: ctx.st, vars: vars, pkg: lpkg}
+				inner := &SpecCtx{e: e, st: ctx.st, old: ctx.old, vars: vars, pkg: lpkg}
 				d1 := inner.intTerm(inner.eval(it.Decr))
 				d0 := ctx.intTerm(ctx.eval(it.Decr))
 				k := e.nextOrdinal("decreases")
 				e.oblige("decreases", fmt.Sprint(k), pc, mkAnd(sx("<=", "0", d1), sx("<", d1, d0)))
 			}
 			e.applyLemma(ctx, s.Name, s.Args, pc, "proof")
+		case "unfold":
+			ctx.eval(s.Expr)
 		case "if":
 			c := ctx.boolTerm(s.Expr)
 			e.lemmaSteps(it, ctx, s.Then, mkAnd(pc, c))
 			e.lemmaSteps(it, ctx, s.Else, mkAnd(pc, mkNot(c)))
 		}
+	}
+}
+
+// verifyPureWF checks that a recursive spec function is well founded: at every recursive
+// call in its body, under the conditions guarding that call, the measure is non-negative
+// and strictly smaller. This makes the unfolding equations (assumed wherever the function
+// is applied) consistent.
+func (e *Env) verifyPureWF(it *Item) {
+	pkg := e.w.typesPkg(it.Pkg)
+	if it.Decr == nil {
+		specFail("recursive spec function %s needs a decreases clause", it.Name)
+	}
+	var ptypes []types.Type
+	for _, p := range it.Params {
+		ptypes = append(ptypes, e.w.resolveType(pkg, p.TypeStr))
+	}
+	key := it.Pkg + "." + it.Name
+	rd := &recDef{item: it, name: q("R!" + key), heapSort: map[string]string{}, paramTypes: ptypes}
+	rd.resType = e.w.resolveType(pkg, it.Result)
+	rd.resSort = e.leavesOf(rd.resType)[0].Sort
+	e.recDefs[key] = rd
+	e.defineRec(rd, pkg)
+	for i, p := range rd.paramSyms {
+		e.sess.Cmd("(declare-const " + p + " " + rd.paramSorts[i] + ")")
+	}
+	for _, hn := range rd.heapNames {
+		e.sess.Cmd("(declare-const " + q("h$"+hn) + " " + rd.heapSort[hn] + ")")
+	}
+	i := 0
+	for pi, pt := range ptypes {
+		_ = pi
+		for _, l := range e.leavesOf(pt) {
+			if r := e.rangeFact(rd.paramSyms[i], l); r != tTrue {
+				e.assume(r)
+			}
+			i++
+		}
+	}
+	e.cover("pre", tTrue)
+	if len(rd.calls) == 0 {
+		specFail("%s is marked recursive but has no recursive call", it.Name)
+	}
+	for k, c := range rd.calls {
+		var pairs []string
+		for j, p := range rd.paramSyms {
+			pairs = append(pairs, p, c.args[j])
+		}
+		d1 := strings.NewReplacer(pairs...).Replace(rd.decrTerm)
+		e.oblige("wellfounded", fmt.Sprintf("call%d", k), c.guard, mkAnd(sx("<=", "0", d1), sx("<", d1, rd.decrTerm)))
 	}
 }
